@@ -185,7 +185,30 @@ func Digits() *rapid.Generator[int] {
 // MutateCode derives a wrong (or accidentally right) string from a code.
 func MutateCode(t *rapid.T, code string) string {
 	b := []byte(code)
-	switch rapid.IntRange(0, 19).Draw(t, "mutKind") {
+	switch rapid.IntRange(0, 20).Draw(t, "mutKind") {
+	case 20: // same length: several bytes changed so that the changes cancel in a careless accumulator — XOR differences that
+		// sum to a multiple of 256 (2 x 0x80, 4 x 0x40, 8 x 0x20, 0xFF + 0x01, 0x7F + 0x81) or that cancel under XOR (the same
+		// difference at two positions)
+		shapes := [][]byte{{0x80, 0x80}, {0x40, 0x40, 0x40, 0x40}, {0x20, 0x20, 0x20, 0x20, 0x20, 0x20, 0x20, 0x20}, {0xFF, 0x01}, {0x7F, 0x81}, {0x10, 0x10}, {0x01, 0x01}, {0xC0, 0x40}}
+		var fit [][]byte
+		for _, sh := range shapes {
+			if len(sh) <= len(b) {
+				fit = append(fit, sh)
+			}
+		}
+		if len(fit) == 0 {
+			return code + "0"
+		}
+		sh := fit[rapid.IntRange(0, len(fit)-1).Draw(t, "mutCancelShape")]
+		at := rapid.IntRange(0, len(b)-len(sh)).Draw(t, "mutCancelAt")
+		stride := 1
+		if len(b) >= 2*len(sh) && rapid.Bool().Draw(t, "mutCancelSpread") {
+			stride, at = 2, 0
+		}
+		for k, d := range sh {
+			b[at+k*stride] ^= d
+		}
+		return string(b)
 	case 18: // same length: one or more digits replaced by the letter people mistake them for (O for 0, l for 1, S for 5, B for 8 ...)
 		look := map[byte]string{'0': "OoQD", '1': "IlLi|", '2': "Zz", '5': "Ss", '6': "Gb", '8': "B", '9': "gq", '3': "E", '4': "A", '7': "T"}
 		n := rapid.IntRange(1, 3).Draw(t, "mutLookN")
